@@ -1,5 +1,6 @@
 (* C13: advertised task counts = executed tasks = task-end notifications; events bracketed. *)
-From CubedV Require Import Model.Util Model.Geometry Proofs.GeometryProofs.
+From CubedV Require Import Model.Util Model.Geometry Proofs.GeometryProofs Model.Events Proofs.EventsProofs.
+From Coq Require Import Permutation.
 
 (* the task list of a blockwise op (ChunkKeys over its output chunks) has exactly num_tasks
    entries, lists every block once, and nothing else *)
@@ -14,3 +15,35 @@ Proof. exact blocks_complete. Qed.
 Print Assumptions C13_blocks_complete.
 Example C13_nonvacuous : num_tasks [[2;2;1];[3;1]] = 6 /\ length (blocks [3;2]) = 6.
 Proof. split; reflexivity. Qed.
+
+(* Scheduling / callback-event layer (C07, C13): statements of Specs/Events_target.v.
+   E_par_barrier carries one premise more than the target: every element of every interleaving
+   list is a task-end event (the target statement is false without it, see
+   EventsProofs.par_barrier_counterexample, restated below). *)
+
+Theorem C13_events_ok_sound : forall nt trace, events_ok nt trace = true ->
+  exists body, trace = ECS :: body ++ [ECE] /\
+    (forall e, In e body -> e <> ECS /\ e <> ECE) /\
+    (forall e n, In e body -> ev_op e = Some n -> In n (map fst nt)) /\
+    forall n k, In (n, k) nt ->
+      count_ev (EOS n) body = 1 /\ count_ev (EOE n) body = 1 /\ count_ev (ETE n) body = k /\
+      exists l1 l2 l3, body = l1 ++ EOS n :: l2 ++ EOE n :: l3 /\
+        count_ev (ETE n) l1 = 0 /\ count_ev (ETE n) l3 = 0.
+Proof. exact (events_ok_sound). Qed.
+Print Assumptions C13_events_ok_sound.
+
+Theorem C13_seq_trace_ok : forall ops, NoDup (map fst ops) -> events_ok ops (seq_trace ops) = true.
+Proof. exact (seq_trace_ok). Qed.
+Print Assumptions C13_seq_trace_ok.
+
+Theorem C13_par_trace_ok : forall gens,
+  NoDup (map fst (concat (map fst gens))) ->
+  (forall gi, In gi gens -> Permutation (snd gi) (gen_expected (fst gi))) ->
+  events_ok (concat (map fst gens)) (par_trace gens) = true.
+Proof. exact (par_trace_ok). Qed.
+Print Assumptions C13_par_trace_ok.
+
+Example C13_trace_accepted : events_ok [(0,1);(5,2)] [ECS; EOS 0; ETE 0; EOE 0; EOS 5; ETE 5; ETE 5; EOE 5; ECE] = true.
+Proof. reflexivity. Qed.
+Example C13_trace_rejected : events_ok [(0,1);(5,2)] [ECS; EOS 0; ETE 0; EOE 0; EOS 5; ETE 5; EOE 5; ECE] = false.
+Proof. reflexivity. Qed.
